@@ -48,6 +48,19 @@ fn gen_c11(r: &mut Rng, t: Tier, _job: u64) -> Plan {
     if r.chance(1, 4) {
         p.cfg.auth_reject = Some(0xA000_0000 | r.below(1 << 24) as u32);
     }
+    if r.chance(1, 200) {
+        // a handshake response whose packet header reads like the first bytes of another
+        // protocol (a TLS record 16 03 0x: payloads of 0x010316, 0x020316, 0x030316 bytes) or
+        // has one of the lengths where length-encoded quantities change shape: it is a
+        // handshake response all the same. The bulk is trailing auth / attribute data.
+        if let HsBody::V41 { user, tail, .. } = &mut p.handshake.body {
+            let want = *r.pick(&[0x01_0316usize, 0x02_0316, 0x03_0316, 0x01_0316, 0xFFFF, 0x1_0000, 0x1_0001]);
+            let fixed = 4 + 4 + 1 + 23 + user.len() + 1;
+            if want > fixed {
+                *tail = r.bytes(want - fixed);
+            }
+        }
+    }
     if r.chance(1, 12) && !p.cfg.tls_offered {
         // the client asks for TLS although it was not offered: refused before authentication
         if let HsBody::V41 { caps, .. } = &mut p.handshake.body {
@@ -148,7 +161,30 @@ pub fn gen_c18_plan(r: &mut Rng, t: Tier, job: u64) -> Plan {
 
 fn gen_c18(r: &mut Rng, _t: Tier, job: u64) -> Plan {
     let ncmds = r.usize_below(9);
-    let cmds = small_conv(r, ncmds);
+    let mut cmds = small_conv(r, ncmds);
+    if r.chance(1, 8) {
+        // what clients ask once they are on an encrypted connection (the mysql CLI's `status`,
+        // Workbench, connectors checking that the session really is encrypted): a statement
+        // about TLS is a statement like any other, served by the shim
+        let about_tls: &[&str] = &[
+            "SHOW STATUS LIKE 'Ssl_cipher'", "SHOW SESSION STATUS LIKE 'Ssl_cipher'", "show status like 'ssl_cipher';", "SHOW STATUS LIKE 'Ssl_version'",
+            "SHOW SESSION STATUS LIKE 'Ssl_version'", "SHOW VARIABLES LIKE 'have_ssl'", "SHOW VARIABLES LIKE '%ssl%'", "SHOW GLOBAL VARIABLES LIKE 'tls_version'",
+            "SHOW STATUS LIKE 'Ssl%'", "SELECT VARIABLE_VALUE FROM performance_schema.session_status WHERE VARIABLE_NAME = 'Ssl_cipher'", "STATUS", "\\s",
+            "SHOW STATUS LIKE 'Ssl_cipher_list'", "SHOW SESSION STATUS LIKE 'Ssl_cipher';",
+        ];
+        let text = r.pick(about_tls).as_bytes().to_vec();
+        if crate::model::route_query(&text) == crate::model::QRoute::Query {
+            let cmd = Cmd {
+                seq: 0,
+                kind: CmdKind::Query(Blob::Lit(text)),
+                act: Act::Program(if r.coin() { simple_ok_program() } else { gen_program(r, &ProgOpts::std(false)) }),
+            };
+            // keep a QUIT (if any) last
+            let end = cmds.iter().position(|c| matches!(c.kind, CmdKind::Quit)).unwrap_or(cmds.len());
+            let at = r.usize_below(end + 1);
+            cmds.insert(at, cmd);
+        }
+    }
     let mut p = finish_plan(r, cmds);
     // 4.1 handshake with a seeded user name; the SSLRequest is derived from it
     let mut hs = gen_handshake(r);
